@@ -264,12 +264,7 @@ Loop:
 func (session *ServerCommandSession) handleOptions(requestCtx nazahttp.HttpReqMsgCtx) error {
 	Log.Infof("[%s] < R OPTIONS", session.uniqueKey)
 	resp := PackResponseOptions(requestCtx.Headers.Get(HeaderCSeq))
-	if session.isWebSocket {
-		respLen := len([]byte(resp))
-		session.writeWsFrameHeader(respLen)
-	}
-	_, err := session.conn.Write([]byte(resp))
-	return err
+	return session.writeResponse(resp)
 }
 
 func (session *ServerCommandSession) handleAnnounce(requestCtx nazahttp.HttpReqMsgCtx) error {
@@ -326,12 +321,7 @@ func (session *ServerCommandSession) handleDescribe(requestCtx nazahttp.HttpReqM
 		}
 
 		if authresp != "" {
-			if session.isWebSocket {
-				respLen := len([]byte(authresp))
-				session.writeWsFrameHeader(respLen)
-			}
-			_, err := session.conn.Write([]byte(authresp))
-			return err
+			return session.writeResponse(authresp)
 		}
 	}
 
@@ -364,12 +354,7 @@ func (session *ServerCommandSession) feedSdp(rawSdp []byte) error {
 	session.subSession.InitWithSdp(sdpCtx)
 
 	resp := PackResponseDescribe(session.describeSeq, string(rawSdp))
-	if session.isWebSocket {
-		respLen := len([]byte(resp))
-		session.writeWsFrameHeader(respLen)
-	}
-	_, err := session.conn.Write([]byte(resp))
-	return err
+	return session.writeResponse(resp)
 }
 
 func (session *ServerCommandSession) handleAuthorized(requestCtx nazahttp.HttpReqMsgCtx) (string, error) {
@@ -441,12 +426,7 @@ func (session *ServerCommandSession) handleSetup(requestCtx nazahttp.HttpReqMsgC
 		}
 
 		resp := PackResponseSetup(requestCtx.Headers.Get(HeaderCSeq), htv)
-		if session.isWebSocket {
-			respLen := len([]byte(resp))
-			session.writeWsFrameHeader(respLen)
-		}
-		_, err = session.conn.Write([]byte(resp))
-		return err
+		return session.writeResponse(resp)
 	}
 
 	rRtpPort, rRtcpPort, err := parseClientPort(requestCtx.Headers.Get(HeaderTransport))
@@ -488,12 +468,7 @@ func (session *ServerCommandSession) handleSetup(requestCtx nazahttp.HttpReqMsgC
 	}
 
 	resp := PackResponseSetup(requestCtx.Headers.Get(HeaderCSeq), htv)
-	if session.isWebSocket {
-		respLen := len([]byte(resp))
-		session.writeWsFrameHeader(respLen)
-	}
-	_, err = session.conn.Write([]byte(resp))
-	return err
+	return session.writeResponse(resp)
 }
 
 func (session *ServerCommandSession) handleRecord(requestCtx nazahttp.HttpReqMsgCtx) error {
@@ -519,34 +494,33 @@ func (session *ServerCommandSession) handlePlay(requestCtx nazahttp.HttpReqMsgCt
 		return err
 	}
 	resp := PackResponsePlay(requestCtx.Headers.Get(HeaderCSeq))
-	if session.isWebSocket {
-		respLen := len([]byte(resp))
-		session.writeWsFrameHeader(respLen)
-	}
-	_, err := session.conn.Write([]byte(resp))
-	return err
+	return session.writeResponse(resp)
 }
 
 func (session *ServerCommandSession) handleTeardown(requestCtx nazahttp.HttpReqMsgCtx) error {
 	Log.Infof("[%s] < R TEARDOWN", session.uniqueKey)
 	resp := PackResponseTeardown(requestCtx.Headers.Get(HeaderCSeq))
-	if session.isWebSocket {
-		respLen := len([]byte(resp))
-		session.writeWsFrameHeader(respLen)
-	}
-	_, err := session.conn.Write([]byte(resp))
-	return err
+	return session.writeResponse(resp)
 }
 
-func (session *ServerCommandSession) writeWsFrameHeader(respLen int) {
-	wsHeader := base.WsHeader{
-		Fin:           true,
-		Rsv1:          false,
-		Rsv2:          false,
-		Rsv3:          false,
-		Opcode:        base.Wso_Binary,
-		PayloadLength: uint64(respLen),
-		Masked:        false,
+// writeResponse 发送一个信令回复。
+//
+// websocket时，frame header和回复内容必须合成一次写：这条连接同时被上层的转发协程写入rtp数据，
+// 分两次写的话，别的frame可能插到header和内容之间；而且发送队列满时是按“次”丢弃的，可能只发出header。
+// 两种情况下对端的websocket frame流都会错位
+func (session *ServerCommandSession) writeResponse(resp string) error {
+	b := []byte(resp)
+	if session.isWebSocket {
+		h := base.MakeWsFrameHeader(base.WsHeader{
+			Fin:           true,
+			Opcode:        base.Wso_Binary,
+			PayloadLength: uint64(len(b)),
+		})
+		frame := make([]byte, len(h)+len(b))
+		copy(frame, h)
+		copy(frame[len(h):], b)
+		b = frame
 	}
-	session.conn.Write(base.MakeWsFrameHeader(wsHeader))
+	_, err := session.conn.Write(b)
+	return err
 }
